@@ -142,6 +142,9 @@ func c20corpus() []c20prog {
 		`(list (- (symnum (quote int64)) (symnum (quote string))) (< (quote rune) (quote float64)) (- (symnum (quote bool)) (symnum (quote uint8))) (< (quote snoopy) (quote hornet)) (< (quote vall) (quote vinner)))`,
 		// a Go method returning a struct registered under two names, directly and held by value
 		`(def a (vall str:"x" v:(vinner s:"v" n:1))) (list (_method a MakeTwo:) (_method a HolderOfTwo:) (_method a MakeInner:) (_method a EchoSelf:))`,
+		// a record overwritten through a pointer: the target's field order is observable
+		`(struct Pt [(field w: int64 e:0) (field x: int64 e:1) (field y: int64 e:2) (field z: int64 e:3)]) (def a (Pt w: 1 x: 2 y: 3 z: 4)) (def p (& a)) (derefSet p (Pt z: 30 w: 40 x: 10 y: 20)) (list (str a) (keys a) (json a) (hpair a 0))`,
+		`(def h1 (hash q: 1 r: 2 s: 3 t: 4)) (def h2 (hash t: 9 s: 8 r: 7 q: 6 u: 5)) (def p (& h1)) (derefSet p h2) (list (str h1) (keys h1) (str (* p)))`,
 		// decoded data whose member names the interpreter has never seen: their symbol numbers are assigned while decoding
 		// (differences of numbers: absolute numbers depend on the process history, which is the recorded finding gen04)
 		`(def h (unjson (raw "{\"Atype\":\"hash\", \"nqa\":1, \"nqb\":{\"Atype\":\"hash\", \"nqz\":1, \"nqy\":2, \"zKeyOrder\":[\"nqz\",\"nqy\"]}, \"nqc\":[1, 2], \"nqd\":4, \"zKeyOrder\":[\"nqd\",\"nqa\",\"nqb\",\"nqc\"]}"))) (list (str h) (keys h) (- (symnum (str2sym "nqa")) (symnum (str2sym "nqd"))) (- (symnum (str2sym "nqz")) (symnum (str2sym "nqc"))) (< (str2sym "nqa") (str2sym "nqc")) (< (str2sym "nqy") (str2sym "nqd")))`,
